@@ -117,6 +117,57 @@ theorem RespsOK.tail {rest : List BaseResp} {r : BaseResp} (hr : RespsOK cfg s) 
   rw [hs'] at hx
   exact hr x (by rw [hrs]; exact List.mem_cons_of_mem _ hx)
 
+/-! ## How the chunk list and the pending responses evolve -/
+
+/-- nothing new (up to positions and bytes; possibly a refusal was consumed), or exactly one new chunk
+    inside the block the base allocator just granted (that response was consumed) -/
+def Trace (s s' : State) : Prop :=
+  (SameShape s s' ∧ (s'.resps = s.resps ∨ s.resps = .fail :: s'.resps)) ∨
+  (∃ p g c, s.resps = .granted p g :: s'.resps ∧ c.base = p ∧ c.size ≤ g ∧
+     s'.chunks.map Chunk.shape = s.chunks.map Chunk.shape ++ [Chunk.shape c])
+
+theorem Trace.refl (s : State) : Trace s s := Or.inl ⟨SameShape.refl s, Or.inl rfl⟩
+
+theorem Trace.of_shape {s s' : State} (h : SameShape s s') (hr : s'.resps = s.resps) : Trace s s' :=
+  Or.inl ⟨h, Or.inl hr⟩
+
+theorem Trace.pre {a b c : State} (h : SameShape a b) (hr : b.resps = a.resps) (t : Trace b c) : Trace a c := by
+  rcases t with ⟨t1, t2⟩ | ⟨p, g, ch, t1, t2, t3, t4⟩
+  · refine Or.inl ⟨h.trans t1, ?_⟩
+    rcases t2 with t2 | t2
+    · exact Or.inl (t2.trans hr)
+    · exact Or.inr (hr ▸ t2)
+  · refine Or.inr ⟨p, g, ch, hr ▸ t1, t2, t3, ?_⟩
+    have : b.chunks.map Chunk.shape = a.chunks.map Chunk.shape := h
+    rw [t4, this]
+
+theorem Trace.post {a b c : State} (t : Trace a b) (h : SameShape b c) (hr : c.resps = b.resps) : Trace a c := by
+  rcases t with ⟨t1, t2⟩ | ⟨p, g, ch, t1, t2, t3, t4⟩
+  · refine Or.inl ⟨t1.trans h, ?_⟩
+    rcases t2 with t2 | t2
+    · exact Or.inl (hr.trans t2)
+    · exact Or.inr (by rw [hr]; exact t2)
+  · refine Or.inr ⟨p, g, ch, by rw [hr]; exact t1, t2, t3, ?_⟩
+    have : c.chunks.map Chunk.shape = b.chunks.map Chunk.shape := h
+    rw [this, t4]
+
+theorem newChunkSpec_trace {size : Nat} {s' : State} {r : Except AErr Nat}
+    (he : newChunkSpec cfg s size = .ok (s', r)) : Trace s s' := by
+  unfold newChunkSpec at he
+  split at he
+  · cases he; exact Trace.refl _
+  · split at he
+    · cases he
+    · rename_i rest hrs
+      cases he
+      exact Or.inl ⟨SameShape.refl _, Or.inr hrs⟩
+    · rename_i p g rest hrs
+      split at he
+      · cases he
+        refine Or.inr ⟨p, g, freshChunk cfg p g size, hrs, rfl, Lemmas.Size.downAlign_le _ _, ?_⟩
+        simp only [List.map_append, List.map_cons, List.map_nil]
+      · cases he
+
 /-- appending a well-formed chunk keeps the invariant -/
 theorem GeomInv.append (h : GeomInv cfg s) {c : Chunk} (hw : ChunkWF cfg c) {s' : State}
     (hch : s'.chunks = s.chunks ++ [c]) (hcur : s'.cur = s.cur) (hma : s'.minAlign = s.minAlign) : GeomInv cfg s' := by
@@ -258,13 +309,14 @@ structure NewPost (cfg : Cfg) (s s' : State) (r : Except AErr Nat) : Prop where
   /-- success: exactly one chunk was appended, `r` is its index, its position is the reset position -/
   ok : ∀ i, r = .ok i → i = s.chunks.length ∧
     ∃ c, s'.chunks = s.chunks ++ [c] ∧ 16 ∣ c.pos ∧ c.pos = (c.resetPos cfg).pos
+  trace : Trace s s'
 
 theorem newChunk_post (hc : CfgOK cfg) (h : GeomInv cfg s) (hr : RespsOK cfg s) {size : Nat}
     (hsz : cfg.hdr.size ≤ size) {s' : State} {r : Except AErr Nat} (he : newChunk cfg s size = .ok (s', r)) :
     NewPost cfg s s' r ∧ (∀ i, r = .ok i → ∃ c, s'.chunks[i]? = some c ∧ size ≤ c.size) := by
   rw [newChunk_eq hc hr] at he
   obtain ⟨g1, g2, g3, g4, g5, g6⟩ := newChunkSpec_ok hc h hr hsz he
-  refine ⟨⟨g1, g2, g3, g4, g5, ?_⟩, ?_⟩
+  refine ⟨⟨g1, g2, g3, g4, g5, ?_, newChunkSpec_trace he⟩, ?_⟩
   · intro i hi
     obtain ⟨e1, p, g, rest, hrs, hg, hle, hch⟩ := g6 i hi
     have hw := freshChunk_wf hc hg hsz hle
@@ -298,7 +350,7 @@ theorem newChunkForCapacity_post (hc : CfgOK cfg) (h : GeomInv cfg s) (hr : Resp
     refine ⟨?_, fun _ => ⟨_, _, rfl⟩⟩
     intro s' r he
     cases he
-    exact ⟨h, hr, rfl, rfl, fun _ _ => rfl, fun i hi => by cases hi⟩
+    exact ⟨h, hr, rfl, rfl, fun _ _ => rfl, fun i hi => (by cases hi), Trace.refl _⟩
   | some size =>
     obtain ⟨_, hsa, hsz, _, _⟩ := C12.calcSize_some hc.hdr hs
     exact ⟨fun s' r he => (newChunk_post hc h hr hsz he).1, fun hb => newChunk_noFault hc hr hsa (hb size rfl)⟩
@@ -316,7 +368,7 @@ theorem appendFor_post (hc : CfgOK cfg) (h : GeomInv cfg s) (hr : RespsOK cfg s)
     refine ⟨?_, fun _ => ⟨_, _, rfl⟩⟩
     intro s' r he
     cases he
-    exact ⟨h, hr, rfl, rfl, fun _ _ => rfl, fun i hi => by cases hi⟩
+    exact ⟨h, hr, rfl, rfl, fun _ _ => rfl, fun i hi => (by cases hi), Trace.refl _⟩
   | some size =>
     obtain ⟨_, hsa, hsz, _, _⟩ := C12.calcSize_some hc.hdr hs
     exact ⟨fun s' r he => (newChunk_post hc h hr hsz he).1, fun hb => newChunk_noFault hc hr hsa (hb size rfl)⟩
